@@ -15,7 +15,7 @@ BASE = dict(UsersA={"a1", "a2"}, UsersB={"b1"}, Daemons="@{}", OpsA="@{}", OpsB=
             Thresh=0, SendN=3, Codes={1}, ReadSizes={1, 2}, Modes={"block"}, Loss=False,
             FixRace=False, FixSendall=False, FixCredit=False, Mut="none", SpinCap=3, HoldBack=False)
 U = 4032
-GEN = dict(BASE, OpsA={"send", "sendall", "send_err", "sendall_err", "recv"}, OpsB={"recv", "recv_err", "send", "send_err"},
+GEN = dict(BASE, OpsA={"send", "sendall", "send_err", "sendall_err", "recv"}, OpsB={"recv", "recv_err", "send", "send_err", "combine"},
            UsersB={"b1", "b2"}, MaxCalls=3, W0=10, Thresh=1, SendN=7, ReadSizes={1, 3, 12}, Modes={"block", "nonblock"})
 
 
@@ -26,6 +26,11 @@ def model(c, runs):
             dict(name="simulate (spec -> code)", module="Channel_Gen", simulate=True, expect="behaviours",
                  cfg=cfg_text(spec="GSpec", constants=dict(GEN, **dc.gen_variant()), invariants=["GenEmit"]),
                  kw=dict(workers=1, simulate="num=%d" % (40 if c.quick else 500), extra=["-depth", "200", "-seed", str(c.seed + 1)]))]
+    comb = dict(BASE, UsersA={"a1"}, OpsA={"send_err", "send"}, OpsB={"recv", "recv_err", "combine"}, MaxCalls=3, SendN=2, ReadSizes={1, 3})
+    jobs.append(dict(name="receiver calls set_combine_stderr(True) with stderr buffered: 1 sender x 3 calls, reader x 3 calls", module="Channel",
+                     cfg=cfg_text(constants=comb, invariants=INVS)))
+    jobs.append(dict(name="sensitivity: combine_credits (moved stderr bytes counted in in_window_sofar, credited again when read)", module="Channel",
+                     expect="NoOverGrant", cfg=cfg_text(constants=dict(comb, Mut="combine_credits"), invariants=INVS)))
     small = dict(BASE, OpsA={"sendall", "send_err"}, OpsB={"recv", "recv_err"}, SendN=4)
     for mut, inv in (("no_decrement", "WindowRespected"), ("ignore_maxpkt", "PacketBound"), ("over_ack", "NoOverGrant")):
         jobs.append(dict(name="sensitivity: " + mut, module="Channel", expect=inv, cfg=cfg_text(constants=dict(small, Mut=mut), invariants=INVS)))
@@ -76,6 +81,8 @@ def programs(rnd, n):
         reads = [1, 100, 4096, 32768, 65536]
         if rnd.random() < 0.5:
             th["b1"] = [(rnd.choice(["recv", "recv_err"]), rnd.choice(reads)) for _ in range(rnd.choice([1, 2, 4]))]
+            if rnd.random() < 0.5:        # the receiving application switches to combined stderr somewhere in between
+                th["b1"].insert(rnd.randrange(len(th["b1"]) + 1), ("combine",))
             if rnd.random() < 0.4:
                 th["b2"] = [(rnd.choice(["send", "sendall_err"]), rnd.choice([1, 5000, 40000]))]
                 th["a3"] = [("recv", 65536), ("recv_err", 65536)]
@@ -84,6 +91,14 @@ def programs(rnd, n):
             th["dB_err"] = [("recv_err_loop", rnd.choice(reads))]
         progs.append({"par": par, "threads": th})
     return progs
+
+
+# stderr data buffered BEFORE set_combine_stderr(True): recv_stderr(1) returns once it is there, the rest is moved to stdout
+FIXED = [
+    {"threads": {"a1": [("send_err", 3000)], "b1": [("recv_err", 1), ("combine",), ("recv", 65536)]}},
+    {"threads": {"a1": [("send_err", 20000), ("send", 5000)], "b1": [("recv_err", 100), ("combine",), ("recv", 4096), ("recv", 65536)]}},
+    {"threads": {"a1": [("sendall_err", 30000)], "a2": [("sendall", 30000)], "b1": [("recv_err", 1), ("combine",)], "dB_out": [("recv_loop", 8192)]}},
+]
 
 
 def describe(clause, it, evs, l):
@@ -99,7 +114,9 @@ def run(c):
     t0 = time.time()
     nb, differ = model(c, runs)
     laps = {"model+replay_s": round(time.time() - t0, 1)}
-    progs = programs(rnd, 14 if c.quick else 250)
+    progs = [{"par": {"win": {"A": 32768, "B": 32768}, "pkt": {"A": 32768, "B": 32768}, "tmo": {"A": "block", "B": "block"}},
+              "threads": p["threads"]} for p in FIXED]
+    progs += programs(rnd, 12 if c.quick else 250)
     deadline = time.time() + (10 if c.quick else 200)
     explored = dc.explore_into(runs, c, progs, 6 if c.quick else 150, 4 if c.quick else 40, deadline, bound=1 if c.quick else 2,
                                max_steps=2500)
